@@ -70,7 +70,9 @@ Definition plain_struct (S : schema) (t : ty) : bool :=
 Definition scalar_ok (k : kind) (v : value) : bool :=
   match k, v with
   | KBool, VBool _ => true
-  | (KString | KBytes), VStr _ => true
+  | KString, VStr _ => true
+  | KBytes, VStr s => match s with [] => false | _ => true end
+  | KBytes, VEmptyBytes => true
   | (KUint8 | KUint16 | KUint32 | KUint64), VInt z => 0 <=? z
   | (KInt8 | KInt16 | KInt32 | KInt64 | KTime | KDuration | KBigInt | KEnum _ | KMask _), VInt _ => true
   | _, _ => false
